@@ -83,6 +83,19 @@ def check_normalize(ctx, wm: WeaverModel):
             got = arr_term(ls[f2][-1].data['value']) if f2 in ls else None
             ok = isinstance(got, Term) and got.head == 'call:' + PROC + 'normalize' and same(got.kw('a'), wm.fields[f2]) \
                 and veq(got.kw('min_val'), mf.params.get('min_val')) and veq(got.kw('max_val'), mf.params.get('max_val'))
+            if ok:
+                # any further option of normalize stays at its default (the documented map is the one decided above, for the defaults)
+                nfi = ctx.prog.func(PROC + 'normalize')
+                na = nfi.node.args
+                nps = nfi.params()
+                dflts = dict(zip(nps[len(nps) - len(na.defaults):], na.defaults))
+                for k_, v_ in got.kwargs:
+                    if k_ in ('a', 'min_val', 'max_val'):
+                        continue
+                    d_ = dflts.get(k_)
+                    same_default = isinstance(d_, ast.Constant) and isinstance(v_, Const) and v_.v == d_.value and type(v_.v) is type(d_.value)
+                    if not same_default:
+                        ok = False
             ctx.check(ok, 'C14.2', f"{name}: self.{f2} <- normalize(self.{f2}, min_val, max_val)", show(got, 200),
                       (ls[f2][-1].loc() if f2 in ls else mf.fi.loc()), mf.fi.qualname, f"{name}:{f2}")
 
